@@ -133,6 +133,10 @@ def run(ctx, ck) -> None:
             continue
         if isinstance(p, ast.Attribute) and isinstance(parent(p), ast.Call) and parent(p).func is p and p.attr in uses:
             uses[p.attr].append(parent(p))
+        elif (isinstance(p, ast.Assign) and len(p.targets) == 1 and isinstance(p.targets[0], ast.Name) and isinstance(parent(p), ast.ClassDef)
+              and not any(isinstance(n, ast.Attribute) and n.attr == p.targets[0].id for m in world.modules.values() for n in ast.walk(m.tree))):
+            # a class-level alias that nothing reads (its uses were resolved to the variable itself by the normaliser)
+            ck.ok('K1', r, f'class-level alias {p.targets[0].id} of the context variable, never read through the class or its instances', instance=f'alias {p.targets[0].id}', nontrivial=False)
         else:
             ck.incomplete('K1', r, f'the context variable escapes as a value ({ast.unparse(p) if p is not None else "?"}); aliasing is outside the analysed language')
     ck.ok('K1', VAR, f'{len(refs)} references, all inside config.py, all of the form _config_var.get/set/reset(...)', instance='private')
@@ -457,8 +461,10 @@ def run(ctx, ck) -> None:
                       f'the solver call takes options={show(opts)} instead of a copy of the captured self.config.solver_options', instance='options')
         break
     cbs = [n for n in ast.walk(mv.node) if isinstance(n, ast.Call) and world.qualify(module_of(n), n.func) == 'jax.debug.callback']
+    ret_paths = [p for p in function_paths(mv.node) if p.exit == 'return']
+    env_cb = path_env(ret_paths[0]) if ret_paths else {}
     for cb in cbs:
-        t = term(cb.args[0]) if cb.args else None
+        t = term(cb.args[0], env_cb) if cb.args else None
         ck.expect('K7', t == ('attr', cfg_t, 'solver_callback'), cb, 'callback comes from self.config',
                   f'the solver callback is {show(t)} instead of the captured self.config.solver_callback', instance='callback')
     # readers of the active configuration
